@@ -1664,6 +1664,10 @@ class Entity(Instance):
         )
 
     def _port_map(self) -> TextBlock:
+        if len(self._ports) == 0:
+            # an empty port clause is not allowed
+            return TextBlock([])
+
         return TextBlock(title="port (", content=[self._port_declarations(), ");"])
 
     def _library_declaration(self) -> TextBlock:
@@ -1982,9 +1986,15 @@ class EntityInst(Instance):
 
         comp_name = self._scope.lookup_name(self)
 
+        content = [*self._generic_map(), *self._port_map()]
+
+        if len(content) == 0:
+            # no generic map and no port map, terminate the instantiation statement here
+            return TextBlock(f"{comp_name}: entity {path}.{entity_name}{arch_spec};")
+
         return TextBlock(
             title=f"{comp_name}: entity {path}.{entity_name}{arch_spec}",
-            content=[*self._generic_map(), *self._port_map()],
+            content=content,
         )
 
 
